@@ -7,10 +7,10 @@ let canon_entries (t : string) : string =
   String.concat ";" (List.filter (fun e -> e <> "TIMEOUT" && e <> "CLOSED" && e <> "") (split_on ';' t))
 
 (* expected (transcript, hook log) of one connection from the model of handle_connection *)
-let expect_conn (proceed : bool) (steps : string) : string * string =
+let expect_conn ?(max_head = 4096) (proceed : bool) (steps : string) : string * string =
   if not proceed then ("|EOF", "S")
   else begin
-    let (maxh, segs, _nr, closed) = Conn_o.parse_script ("N=4096;" ^ steps) in
+    let (maxh, segs, _nr, closed) = Conn_o.parse_script ("N=" ^ string_of_int max_head ^ ";" ^ steps) in
     let r = M.serve_conn Conn_o.the_app (nat_of_int maxh) segs in
     let resps = String.concat ";" (List.map Conn_o.show_resp r.M.c_resps) in
     let fin = if r.M.c_waiting && not closed then "OPEN" else "EOF" in
@@ -23,15 +23,25 @@ let contains_sub (s : string) (sub : string) : bool =
 
 let eval case0 impl =
   (* optional thread-count prefix *)
-  let case = match String.index_opt case0 '!' with
-    | Some i when String.length case0 > 0 && case0.[0] = 'T' -> String.sub case0 (i + 1) (String.length case0 - i - 1)
-    | _ -> case0 in
+  (* optional prefixes T<n>! (thread count) and N<n>! (head limit) *)
+  let max_head = ref 4096 in
+  let rec strip c =
+    if String.length c > 2 && (c.[0] = 'T' || c.[0] = 'N') && c.[1] >= '0' && c.[1] <= '9' then
+      (match String.index_opt c '!' with
+       | Some i ->
+         (match int_of_string_opt (String.sub c 1 (i - 1)) with
+          | Some v -> if c.[0] = 'N' then max_head := v; strip (String.sub c (i + 1) (String.length c - i - 1))
+          | None -> c)
+       | None -> c)
+    else c in
+  let case = strip case0 in
+  let max_head = !max_head in
   (* histories with routes the application model does not have (interim responses): the three modes are compared with each other only *)
   let differential = contains_sub case (hex_of_bytes (bytes_of_string "/cont")) in
   let conns = List.map (fun c -> match String.index_opt c ':' with
       | Some i -> (String.sub c 0 i <> "X", String.sub c (i + 1) (String.length c - i - 1))
       | None -> failwith "bad conn") (split_on '/' case) in
-  let expected = if differential then [] else List.map (fun (p, s) -> expect_conn p s) conns in
+  let expected = if differential then [] else List.map (fun (p, s) -> expect_conn ~max_head p s) conns in
   let exp_line mode =
     Printf.sprintf "mode=%s conns=[%s] returned=1" mode
       (String.concat "|" (List.map (fun (t, h) -> t ^ "#hooks=" ^ h) expected)) in
